@@ -122,6 +122,7 @@ structure Skeleton where
   lkRejectsNonStruct         : Bool
   lkFieldByName              : Bool
   lkRejectsInvalidField      : Bool
+  lkRejectsUnexportedField   : Bool  -- (repaired tree) a field reached by an unexported name (`!field.CanInterface()`) is rejected
   lkMethodByNameOnLast       : Bool
   lkRejectsNonFunc           : Bool
   lkRecoversPanics           : Bool  -- (repaired tree) lookup cannot panic out
